@@ -659,6 +659,8 @@ EXH_BASES = [
     ("batch-import", [[[0, 1]], [[0, 1], [1, 1]], [[2, 1]]], [("import", 2), ("view",), ("import", 1), ("release", 0)], 2000),
     ("tag-holds-list", [[[0, 3]], [[1, 2]]], [("import", 1), ("tagadd",), ("view",), ("import", 1)], 2000),
     ("tag-and-merge", [[[0, 3]], [[1, 2]], [[2, 1]]], [("import", 1), ("tagadd",), ("import", 1), ("view",), ("import", 1)], 400),
+    ("tag-deleted-under-job", [[[0, 3]], [[1, 2]]], [("import", 1), ("tagadd",), ("tagdel", 0), ("import", 1)], 2000),
+    ("tag-redefined-under-job", [[[0, 3]], [[1, 2]]], [("import", 1), ("tagadd",), ("tagupd", 0), ("import", 1)], 2000),
 ]
 
 
@@ -682,6 +684,8 @@ def exhaustive_scenarios(exe):
                     nv += 1
                 elif a[0] == "release":
                     f.write("api release %d\n" % a[1])
+                elif a[0] in ("tagdel", "tagupd"):
+                    f.write("api %s1\n" % a[0])
                 else:
                     f.write("api tagadd\n")
             f.write("limit %d\n" % limit)
